@@ -620,7 +620,11 @@ func judge(c *Case, res *result) (v verdict) {
 			return fail("resp-body-differs", "handler returned text %s, reader decoded %s", quote(string(c.Resp.Text)), show(res.seen.body))
 		}
 	case "bytes":
-		if g, _ := res.seen.body.([]byte); !bytes.Equal(g, []byte(c.Resp.Text)) {
+		g, isBytes := res.seen.body.([]byte)
+		if gs, isString := res.seen.body.(string); isString {
+			g, isBytes = []byte(gs), true
+		}
+		if !isBytes || !bytes.Equal(g, []byte(c.Resp.Text)) {
 			return fail("resp-body-differs", "handler returned bytes %s, reader got %s", quote(string(c.Resp.Text)), show(res.seen.body))
 		}
 	}
